@@ -55,6 +55,15 @@ SYNC_RENAMES = [
     ("rwmutex.go", "func (rw *RWMutex) RUnlock() {", "func (rw *RWMutex) verifOrigRUnlock() {"),
 ]
 
+# package runtime: the source of map seeds / iteration offsets and the process-wide hash key become
+# deterministic (Go randomises map iteration order from them; a simulated run must not depend on a
+# random source the simulator does not own)
+RUNTIME_RENAMES = [
+    ("rand.go", "func rand() uint64 {\n", "func rand() uint64 {\n\tif verifDetRand {\n\t\treturn verifMapRand()\n\t}\n"),
+    ("alg.go", "\t\thashkey[i] = uintptr(bootstrapRand())", "\t\thashkey[i] = uintptr(verifHashKey(i))"),
+    ("alg.go", "\t\tkey[i] = bootstrapRand()", "\t\tkey[i] = verifHashKey(i)"),
+]
+
 # files that exist only in the overlay: export shims giving the harness the real unexported constructors
 REPO_SHIMS = {
     "/repo/pkg/pdfcpu/primitives/zz_verif_export.go": """// added by /verif through go build -overlay; not part of the repository
@@ -143,7 +152,7 @@ def main():
     replace[os.path.join(goroot, "src", "os", "zz_verif.go")] = zz
     patch_pkg(goroot, out, "net", NET_RENAMES, "zz_verif_net.go.txt", replace)
     patch_pkg(goroot, out, "sync", SYNC_RENAMES, "zz_verif_sync.go.txt", replace)
-    patch_pkg(goroot, out, "runtime", [], "zz_verif_runtime.go.txt", replace)
+    patch_pkg(goroot, out, "runtime", RUNTIME_RENAMES, "zz_verif_runtime.go.txt", replace)
     patch_pkg(goroot, out, "net/http", [], "zz_verif_nethttp.go.txt", replace)
     repo = os.environ.get("VERIF_REPO", "/repo")
     os.makedirs(os.path.join(out, "shims"), exist_ok=True)
